@@ -447,21 +447,6 @@ fn handle(line: &str) -> R {
             let s = String::try_from(&o)?;
             Ok(format!("OK {}", hex(s.as_bytes())))
         }
-        "is_after" => {
-            let x = SnmpOid::from(unhex(a[1]));
-            let y = SnmpOid::from(unhex(a[2]));
-            Ok(format!("OK {} {}", b01(x.is_after(&y)), b01(y.starts_with(&x))))
-        }
-        "relnorm" => {
-            // relnorm <rel content hex (< 128 octets)> <base oid content hex>
-            let rel = unhex(a[1]);
-            let mut tlv = vec![0x0du8, rel.len() as u8];
-            tlv.extend_from_slice(&rel);
-            let (_, r) = SnmpRelativeOid::from_ber(&tlv).map_err(nerr)?;
-            let base = SnmpOid::from(unhex(a[2]));
-            let o = r.try_normalize(&base)?;
-            Ok(format!("OK {}", hex(&o.0)))
-        }
         "enc_int" => {
             let v: i64 = a[1].parse().unwrap();
             let mut b = Buffer::default();
